@@ -97,7 +97,7 @@ var instLayout = map[string]map[string][]layoutRow{
 
 type fieldExtraction struct {
 	fn     *ssa.Function
-	call   *ssa.Call
+	call   ssa.Value
 	word   string
 	lo, hi int64
 	sinks  map[string]bool
@@ -119,6 +119,71 @@ func instFieldOfStore(s *ssa.Store) string {
 	return nt.Underlying().(*types.Struct).Field(fa.Field).Name()
 }
 
+// followSinks follows an extracted value to the Inst fields it can reach.
+func followSinks(fn *ssa.Function, start ssa.Value, fe *fieldExtraction) {
+	seen := map[ssa.Value]bool{}
+	var follow func(v ssa.Value, d int)
+	follow = func(v ssa.Value, d int) {
+		if v == nil || seen[v] || d > 10 || v.Referrers() == nil {
+			return
+		}
+		seen[v] = true
+		for _, r := range *v.Referrers() {
+			switch t := r.(type) {
+			case *ssa.Store:
+				if t.Val == v {
+					if f := instFieldOfStore(t); f != "" {
+						fe.sinks[f] = true
+					}
+				}
+			case *ssa.Convert:
+				follow(t, d+1)
+			case *ssa.ChangeType:
+				follow(t, d+1)
+			case *ssa.MakeInterface:
+				follow(t, d+1)
+			case *ssa.Phi:
+				follow(t, d+1)
+			case *ssa.Extract:
+				// the error result of an operand constructor carries no field bits
+				if types.TypeString(t.Type(), nil) != "error" {
+					follow(t, d+1)
+				}
+			case *ssa.BinOp:
+				switch t.Op {
+				case token.EQL, token.NEQ, token.LSS, token.GTR, token.LEQ, token.GEQ:
+					// a branch on the value: stores of the taken arms
+					for _, u := range *t.Referrers() {
+						iff, ok := u.(*ssa.If)
+						if !ok {
+							continue
+						}
+						for _, sc := range iff.Block().Succs {
+							if len(sc.Preds) != 1 {
+								continue // join block, not an arm
+							}
+							for _, x := range sc.Instrs {
+								if st, ok := x.(*ssa.Store); ok {
+									if f := instFieldOfStore(st); f != "" {
+										fe.sinks[f] = true
+									}
+								}
+							}
+						}
+					}
+				default:
+					follow(t, d+1)
+				}
+			case *ssa.Call:
+				if cc := t.Call.StaticCallee(); cc != nil && cc.Pkg == fn.Pkg && cc.Name() != "extractBits" && cc.Name() != "extractBit" {
+					follow(t, d+1)
+				}
+			}
+		}
+	}
+	follow(start, 0)
+}
+
 func collectFieldExtractions(c *core.Ctx, prov *core.Prov) []fieldExtraction {
 	var out []fieldExtraction
 	for _, fn := range c.SrcFuncs(instsPkg) {
@@ -127,6 +192,25 @@ func collectFieldExtractions(c *core.Ctx, prov *core.Prov) []fieldExtraction {
 		}
 		for _, b := range fn.Blocks {
 			for _, in := range b.Instrs {
+				if cv, isCv := in.(*ssa.Convert); isCv {
+					// uintN(word) / intN(word): the low N bits of the instruction word
+					if w, isCall := cv.X.(*ssa.Call); isCall {
+						wn := ""
+						if cf := core.CalleeFunc(w); cf != nil {
+							wn = cf.Name()
+						}
+						sz, _, isInt := intSize(c, cv.Type())
+						if (wn == "Uint32" || wn == "BytesToUint32") && isInt && sz < 4 {
+							fe := fieldExtraction{fn: fn, call: cv, sinks: map[string]bool{}, lo: 0, hi: sz*8 - 1, word: "w0"}
+							if wp := prov.Of(w); strings.Contains(wp, "[4:8]") || strings.Contains(wp, "[4:]") {
+								fe.word = "w1"
+							}
+							followSinks(fn, cv, &fe)
+							out = append(out, fe)
+						}
+					}
+					continue
+				}
 				call, ok := in.(*ssa.Call)
 				if !ok {
 					continue
@@ -165,68 +249,7 @@ func collectFieldExtractions(c *core.Ctx, prov *core.Prov) []fieldExtraction {
 				default:
 					fe.word = "?" + wp
 				}
-				// sinks
-				seen := map[ssa.Value]bool{}
-				var follow func(v ssa.Value, d int)
-				follow = func(v ssa.Value, d int) {
-					if v == nil || seen[v] || d > 10 || v.Referrers() == nil {
-						return
-					}
-					seen[v] = true
-					for _, r := range *v.Referrers() {
-						switch t := r.(type) {
-						case *ssa.Store:
-							if t.Val == v {
-								if f := instFieldOfStore(t); f != "" {
-									fe.sinks[f] = true
-								}
-							}
-						case *ssa.Convert:
-							follow(t, d+1)
-						case *ssa.ChangeType:
-							follow(t, d+1)
-						case *ssa.MakeInterface:
-							follow(t, d+1)
-						case *ssa.Phi:
-							follow(t, d+1)
-						case *ssa.Extract:
-							// the error result of an operand constructor carries no field bits
-							if types.TypeString(t.Type(), nil) != "error" {
-								follow(t, d+1)
-							}
-						case *ssa.BinOp:
-							switch t.Op {
-							case token.EQL, token.NEQ, token.LSS, token.GTR, token.LEQ, token.GEQ:
-								// a branch on the value: stores of the taken arms
-								for _, u := range *t.Referrers() {
-									iff, ok := u.(*ssa.If)
-									if !ok {
-										continue
-									}
-									for _, sc := range iff.Block().Succs {
-										if len(sc.Preds) != 1 {
-											continue // join block, not an arm
-										}
-										for _, x := range sc.Instrs {
-											if st, ok := x.(*ssa.Store); ok {
-												if f := instFieldOfStore(st); f != "" {
-													fe.sinks[f] = true
-												}
-											}
-										}
-									}
-								}
-							default:
-								follow(t, d+1)
-							}
-						case *ssa.Call:
-							if cc := t.Call.StaticCallee(); cc != nil && cc.Pkg == fn.Pkg && cc.Name() != "extractBits" && cc.Name() != "extractBit" {
-								follow(t, d+1)
-							}
-						}
-					}
-				}
-				follow(call, 0)
+				followSinks(fn, call, &fe)
 				out = append(out, fe)
 			}
 		}
